@@ -110,6 +110,13 @@ func runC07Decoders(c *mon.Case) {
 	for _, e := range envs {
 		env([]byte(e))
 	}
+	// every truncation of well-formed envelopes
+	for _, full := range []string{`{"result":{"desc":{"stream_id":"AA=="},"msg":"AQID"}}`, `{"error":{"code":5,"message":"stream not found"}}`} {
+		for i := 0; i <= len(full); i++ {
+			env([]byte(full[:i]))
+			env([]byte(full[i:]))
+		}
+	}
 	for i := 0; i < 2000; i++ {
 		b := make([]byte, c.Rng.Intn(80))
 		c.Rng.Read(b)
